@@ -52,4 +52,32 @@ inductive Reach (E : Env) : (KVs × String) → (KVs × String) → Prop where
 def Cyclic (E : Env) (a : KVs × String) : Prop :=
   Reach E a a ∨ ∃ c, Reach E a c ∧ Reach E c c
 
+/-- the flatten specification as a function (fuel = an upper bound of the chain length): what the property says a
+service resolves to, computed without tracker, memoisation or visit order -/
+def flattenF (E : Env) : Nat → KVs → String → Out Val
+  | 0, _, _ => .err "flatten:chain-too-long"
+  | fuel + 1, S, n =>
+    match lookup n S with
+    | some (.map svc) =>
+      (match lookup "extends" svc with
+      | none => .ok (.map svc)
+      | some e =>
+        match parseExtends e with
+        | .panic s => .panic s
+        | .err c => .err c
+        | .ok (ref, file) =>
+          match baseMap E S ref file with
+          | none => .err "flatten:no-base"
+          | some S' =>
+            match flattenF E fuel S' ref with
+            | .ok (.map b) =>
+              (match E.extend b svc with
+              | .ok m => .ok (.map (erase "extends" m))
+              | .err c => .err c
+              | .panic s => .panic s)
+            | .ok _ => .err "flatten:base-not-a-mapping"
+            | .err c => .err c
+            | .panic s => .panic s)
+    | _ => .err "flatten:not-a-service"
+
 end CV.Extends
